@@ -184,7 +184,7 @@ class C04Oracle(Oracle):
 class Program:
     def __init__(self, rng, tier):
         self.rng = rng
-        self.world = gen_world(rng, {"integer_max_volume": True})
+        self.world = gen_world(rng, {"integer_max_volume": True, "allow_same_names": True})
         self.gen = Gen(rng, self.world, {"p_comp": 0.2, "dist_dups": True})
         r = rng.random()
         self.n = rng.randint(1, 12) if r < 0.8 else rng.randint(13, 60)
